@@ -65,24 +65,16 @@ def main():
                 print(name, "patch does not apply:", r.stdout[-200:], r.stderr[-200:])
                 rc = 2
                 continue
-            facts, meta = extract.extract("lib", repo=d, cache=False)
+            extract.extract("lib", repo=d, cache=False)
+            mutants._FACTS_CACHED[d] = True
             row = {}
             for pid in pids:
-                mod = importlib.import_module("rules." + pid)
-                for f in facts:
-                    if f["crate"] != "feoxdb":
-                        continue
-                    ctx = Ctx(Program(f), pid, "lib")
-                    try:
-                        mod.check(ctx)
-                    except Exception:
-                        import traceback
-                        ctx.fail("engine", "internal", "-", traceback.format_exc()[-300:])
-                    if ctx.findings:
-                        row[pid] = sorted({f2.inst + " " + f2.kind for f2 in ctx.findings})
-                        if "-v" in sys.argv:
-                            for f2 in ctx.findings:
-                                print("   ", f2.key()[:400])
+                fs = mutants.run_rules(pid, d)
+                if fs:
+                    row[pid] = sorted({f2.inst + " " + f2.kind for f2 in fs})
+                    if "-v" in sys.argv:
+                        for f2 in fs:
+                            print("   ", f2.key()[:400])
             target = json.load(open(os.path.join(sd, name, "meta.json"))).get("property", name[:3])
             matrix[name] = {"property": target, "caught_by_target": target in row, "reported_by": row}
             print("%-8s target=%s %-6s %s" % (name, target, "CAUGHT" if target in row else "MISSED", json.dumps(row)[:300]))
